@@ -394,6 +394,86 @@ def run_case(rep, args, case_no, rng, findings):
         shutil.rmtree(base, ignore_errors=True)
 
 
+def hot_case(rep, args, case_no, rng, findings):
+    """A long log for few keys, then a write that arrives the moment the restarted process accepts connections (while the
+    replay of its own log may still be queued), then another restart. The post-restart write must be what is served, at once and
+    after the next recovery, and its stamp must lie above everything in the log."""
+    base = os.path.join(target_dir(), "e2e", "persist.%s.%d.%d" % (args.extra.get("prop", "x"), args.shard, os.getpid()), "hot%d" % case_no)
+    shutil.rmtree(base, ignore_errors=True)
+    d, w = os.path.join(base, "d"), os.path.join(base, "w")
+    os.makedirs(d); os.makedirs(w)
+    log = os.path.join(base, "server.log")
+    n0 = len(findings)
+    nkeys = rng.choice([1, 1, 2])
+    keys = ["hot%d" % i for i in range(nkeys)]
+    nw = rng.choice([150, 400, 900]) if not args.thorough() else rng.choice([400, 2500, 30000])
+    nw = args.get_int("hotwrites", nw)
+    witness = dict(case=case_no, kind="hot", seed=args.seed, shard=args.shard, writes=nw, keys=nkeys)
+    rep.count("hot_cases")
+    rep.distinct(("hot", nkeys, nw))
+    srv, port, ready, why = start_server(args.shard, d, w, log)
+    if not ready:
+        rep.inconclusive("hot case: server not ready: " + why[:200])
+        return
+    cl = Client(port, timeout=30.0)
+    last = {}
+    sent = 0
+    while sent < nw:
+        b = min(50, nw - sent)
+        data = b""
+        for i in range(b):
+            k = keys[(sent + i) % nkeys]
+            v = "H%dx%d" % (case_no, sent + i)
+            data += enc("SET", k, v)
+            last[k] = v
+        cl.send(data)
+        got = cl.recv_replies(b, timeout=30.0)
+        if len(got) < b:
+            rep.inconclusive("hot case: replies missing while filling the log")
+            srv.kill9()
+            return
+        sent += b
+    cl.close()
+    rep.d["evaluations"] += nw
+    rep.count("commands_acked", nw)
+    files1 = sorted(os.listdir(w))
+    srv.kill9()
+    store_too = rng.random() < 0.5
+    if not store_too:
+        shutil.rmtree(d); os.makedirs(d)     # nothing but the WAL: the whole history is replayed entry by entry
+    srv, port, ready, why = start_server(args.shard, d, w, log)
+    if not ready:
+        findings.append(("C11", "C11|e2e|server-does-not-start-on-its-own-files|hot", why, dict(witness)))
+        return
+    cl = Client(port, timeout=30.0)
+    k = keys[0]
+    cl.send(enc("SET", k, "POST") + enc("GET", k))
+    got = cl.recv_replies(2, timeout=30.0)
+    rep.count("eager_post_restart_writes")
+    if len(got) == 2 and got[1] != ("$", b"POST"):
+        findings.append(("C08", "C08|e2e|post-restart-write-not-served|eager|%s" % ("store+wal" if store_too else "wal-only"),
+                         "SET %s POST sent as the first bytes after the restart was acknowledged (%r); the GET behind it answers %r (last pre-crash value %s)" % (k, got[0], got[1], last[k]),
+                         dict(witness)))
+    time.sleep(0.05)
+    g2 = cl.cmd("GET", k)
+    if g2 != ("$", b"POST"):
+        findings.append(("C08", "C08|e2e|post-restart-write-superseded-later|eager|%s" % ("store+wal" if store_too else "wal-only"),
+                         "GET %s a moment after the acknowledged post-restart SET answers %r" % (k, g2), dict(witness)))
+    cl.close()
+    files2 = sorted(os.listdir(w))
+    srv.kill9()
+    snap, why = start_and_snapshot(rep, args.shard, d, w, keys, log)
+    if snap is not None:
+        for kk in keys:
+            want = b"POST" if kk == k else last[kk].encode()
+            if not (snap[kk] and snap[kk][0] == "s" and snap[kk][1] == want):
+                findings.append(("C08" if kk == k else "C09", "%s|e2e|%s|hot" % (("C08", "post-restart-write-lost-by-next-recovery") if kk == k else ("C09", "restart|acked-write-lost")),
+                                 "after the second restart key %s serves %s, expected %r" % (kk, show(snap[kk]), want), dict(witness, key=kk)))
+    stamp_oracle(rep, findings, w, [files1, files2], witness)
+    if len(findings) == n0 and not os.environ.get("VH_KEEP"):
+        shutil.rmtree(base, ignore_errors=True)
+
+
 def judge(rep, findings, hist, snap, acked, where, witness, prev_mode, prop="C09", extra=""):
     ok = True
     for k, st in snap.items():
@@ -604,13 +684,16 @@ def main():
     rep.note("real binary server-persistent (release, panic=abort, no hooks) over loopback TCP; REDIS_WAL_FSYNC=always, localfs object store")
     if not os.path.exists(bin_path("server-persistent")):
         build_bins()
-    ncases = args.get_int("cases", 6 if args.thorough() else 2)
+    ncases = args.get_int("cases", 9 if args.thorough() else 3)
     findings = []
     for c in range(ncases):
         rng = args.rng(c)
         n0 = len(findings)
         try:
-            run_case(rep, args, c, rng, findings)
+            if c % 3 == 2:
+                hot_case(rep, args, c, rng, findings)
+            else:
+                run_case(rep, args, c, rng, findings)
         except Exception as e:  # noqa
             import traceback
             rep.inconclusive("case %d: harness error %r %s" % (c, e, traceback.format_exc()[-800:]))
